@@ -14,7 +14,7 @@ const SPEC: Spec = Spec {
     ],
     bounds_quick: "arithmetic scalar forms: {BigUint x 6 unsigned, BigInt x 12 types} x {+,-,*,/,%} x 9 forms; scalar %= big for 12 types (value and reference); shifts 2 big types x 12 types x {<<,>>} x 6 forms; pow 2 big types x 6 types + BigUint exponent x 4 forms; big-by-big 8 operators x 6 forms on a 24^2 sub-pool; checked_*; Sum/Product over Big, &Big and each scalar type",
     bounds_thorough: "same matrix with the full 30^2 big-by-big pool and an extended scalar set (every power of two +-1 that fits the type)",
-    hang_secs: 300,
+    hang_secs: 120,
     probes: None,
     max_workers: 16,
 };
